@@ -287,9 +287,9 @@ func main() {
 		jobs = append(jobs, job{balancers["cooperative-sticky"], &stickyBlocks[i]})
 	}
 	r.Set("bound_completed", map[string]any{
-		"range_roundrobin":   fmt.Sprintf("members<=%d, topics<=2 with 1..%d partitions (+1 nonexistent topic), all subscription vectors incl. one special member, dynamic and static(reversed) IDs", sb.maxMembers, sb.maxPer),
-		"range_racks":        fmt.Sprintf("members<=%d on {none,ra,rb}^n, topics<=2 with 1..%d partitions, leaders on {ra,rb}^P", sb.rackMembers, sb.rackPer),
-		"sticky_cooperative": fmt.Sprintf("members<=%d; full prior sweep: total partitions<=%d (<=%d at %d members); special-member sweep: <=%d; rack sweep (2 racks, all placements): <=%d; topics<=2 with 1..3 partitions; count-map insertion orders: %s", st.MaxMembers, st.FullTotal, st.FullTotalAtMax, st.MaxMembers, st.SpecialTotal, st.RacksTotal, map[int]string{0: "one per input, alternating", 1: "one", 2: "both for every input (alternating at 6 partitions)"}[st.Orders]),
+		"range_roundrobin":           fmt.Sprintf("members<=%d, topics<=2 with 1..%d partitions (+1 nonexistent topic), all subscription vectors incl. one special member, dynamic and static(reversed) IDs", sb.maxMembers, sb.maxPer),
+		"range_racks":                fmt.Sprintf("members<=%d on {none,ra,rb}^n, topics<=2 with 1..%d partitions, leaders on {ra,rb}^P", sb.rackMembers, sb.rackPer),
+		"sticky_cooperative":         fmt.Sprintf("members<=%d; full prior sweep: total partitions<=%d (<=%d at %d members); special-member sweep: <=%d; rack sweep (2 racks, all placements): <=%d; topics<=2 with 1..3 partitions; count-map insertion orders: %s", st.MaxMembers, st.FullTotal, st.FullTotalAtMax, st.MaxMembers, st.SpecialTotal, st.RacksTotal, map[int]string{0: "one per input, alternating", 1: "one", 2: "both for every input (alternating at 6 partitions)"}[st.Orders]),
 		"sticky_cooperative_complex": cx.String(),
 	})
 
